@@ -76,7 +76,7 @@ def gen(g, count, seeds):
 
 def run(ctx):
     g = G(ctx.seed)
-    cases = gen(g, 60 if ctx.tier == 'quick' else 600, 2 if ctx.tier == 'quick' else 6)
+    cases = gen(g, 150 if ctx.tier == 'quick' else 600, 2 if ctx.tier == 'quick' else 6)
     refs = {}
     pcs = []
     for c in cases:
